@@ -42,10 +42,15 @@ class ThreadWaiter(object):
 
 
 class NoWaiter(object):
-    """held / single-driver mode: nothing ever blocks; an unsatisfied wait is a timeout"""
+    """held / single-driver mode: nothing may block. A zero-timeout wait that is not satisfied is a timeout; any
+    other unsatisfied wait would block the only thread forever and is reported as Stalled."""
 
     def wait(self, pred, timeout, what=None):
-        return pred()
+        if pred():
+            return True
+        if timeout is not None and timeout <= 0:
+            return False
+        raise Stalled("blocking wait (%r, timeout=%r) in single-driver mode: nobody could ever satisfy it" % (what, timeout))
 
     def notify(self):
         pass
@@ -108,6 +113,7 @@ class Net(object):
         self.in_send = {"A": 0, "B": 0}
         self.max_in_send = 0
         self.on_write = None        # optional callback(side, data) called inside write (re-entrancy injection)
+        self.hold_eof = False       # held mode: EOF is delivered only by deliver_eof()
         self.nwrites = 0
         self.max_writes = None      # logical step bound per case: exceeding it ends the link and sets runaway
         self.runaway = False
@@ -128,10 +134,18 @@ class Net(object):
         chunk = p.inflight[:nbytes]
         del p.inflight[:nbytes]
         p.buf += chunk
-        if p.eof_inflight and not p.inflight:
+        if p.eof_inflight and not p.inflight and not self.hold_eof:
             p.eof = True
         self.waiter.notify()
         return len(chunk)
+
+    def deliver_eof(self, direction):
+        p = self.pipe(direction)
+        if p.eof_inflight and not p.inflight:
+            p.eof = True
+            self.waiter.notify()
+            return True
+        return False
 
     def deliver_frame(self, direction):
         """deliver exactly one whole frame if one is in flight; returns True if delivered"""
@@ -142,7 +156,7 @@ class Net(object):
             if len(p.inflight) >= 5 + n + 1:
                 self.deliver(direction, 5 + n + 1)
                 return True
-        if p.eof_inflight and not p.inflight and not p.eof:
+        if p.eof_inflight and not p.inflight and not p.eof and not self.hold_eof:
             p.eof = True
             self.waiter.notify()
         return False
@@ -216,7 +230,7 @@ class MemStream(Stream):
         if not self._closed:
             self._closed = True
             self.tx.eof_inflight = True
-            if not self.tx.held or not self.tx.inflight:
+            if (not self.tx.held or not self.tx.inflight) and not self.net.hold_eof:
                 self.tx.eof = True
             self.rx.reader_closed = True
             self.net.waiter.notify()
